@@ -1,5 +1,5 @@
 """Registry: property id -> engine, budgets, manifest texts."""
-from . import e1_solver, e3_entry, e5_render, e6_order
+from . import e1_solver, e3_entry, e4_cli, e5_render, e6_order
 
 
 def _budget(batches, examples, wall_s):
@@ -17,8 +17,8 @@ PROPS = {
     "C16": {
         "id": "C16",
         "engine": e3_entry,
-        "quick": _budget(64, 300, 60),
-        "thorough": _budget(640, 600, 600),
+        "quick": _budget(64, 1200, 60),
+        "thorough": _budget(960, 2500, 900),
         "technique": "deterministic simulation: seeded histories of offers/reads/combines on shared "
                      "entries and table cells under simulator-chosen set iteration orders, checked "
                      "operation by operation against a list-of-offers reference model",
@@ -34,8 +34,8 @@ PROPS = {
     "C19": {
         "id": "C19",
         "engine": e6_order,
-        "quick": _budget(48, 200, 60),
-        "thorough": _budget(480, 400, 600),
+        "quick": _budget(64, 1500, 60),
+        "thorough": _budget(960, 3000, 900),
         "technique": "deterministic simulation: seeded digraphs and call histories with every set "
                      "iteration order (vertex set, successor sets, backtracking frontier) chosen by "
                      "the simulator, results compared with permutation filtering",
@@ -50,8 +50,8 @@ PROPS = {
     "C20": {
         "id": "C20",
         "engine": e6_order,
-        "quick": _budget(48, 120, 60),
-        "thorough": _budget(480, 300, 600),
+        "quick": _budget(64, 1200, 60),
+        "thorough": _budget(960, 2500, 900),
         "technique": "deterministic simulation: seeded union/find/binary histories against a "
                      "partition model, and triple decomposition / supertree reconstruction under "
                      "simulator-chosen set pop and iteration orders against an enumeration of all "
@@ -104,7 +104,7 @@ _E1_BUDGET = {  # (batches, examples per batch) for quick / thorough
     "C04": ((64, 100), (640, 200)),
     "C05": ((64, 300), (640, 500)),
     "C08": ((64, 100), (640, 200)),
-    "C09": ((48, 40), (480, 80)),
+    "C09": ((64, 150), (640, 300)),
     "C10": ((64, 250), (640, 500)),
 }
 for _pid, (_title, _tech) in _E1.items():
@@ -142,8 +142,8 @@ for _pid, (_title, _tech) in _E5.items():
     PROPS[_pid] = {
         "id": _pid,
         "engine": e5_render,
-        "quick": _budget(64, 120, 75),
-        "thorough": _budget(640, 300, 1500),
+        "quick": _budget(64, 500, 75),
+        "thorough": _budget(960, 1500, 1500),
         "technique": "deterministic simulation: " + _tech,
         "level_text": _title + ": the only way to run layout and rendering here is against a "
                       "simulated TeX peer; the simulator owns its answers and faults, and the "
@@ -152,6 +152,24 @@ for _pid, (_title, _tech) in _E5.items():
         "design_ref": f"DESIGN.md section 6 ({_pid}), section 5 (E5), section 3.2 (S4)",
         "level_note": _LEVEL_NOTE,
     }
+
+PROPS["C12"] = {
+    "id": "C12",
+    "engine": e4_cli,
+    "quick": _budget(64, 250, 75),
+    "thorough": _budget(960, 600, 1500),
+    "technique": "deterministic simulation: the CLI run in-process as a pipeline of simulated "
+                 "processes over a simulated file system, stdio and TeX peer, with short raw "
+                 "reads/writes, errno faults, clock jumps and per-process set-iteration seeds; "
+                 "names, printed cost, ALL/ANY containment, draw acceptance and the error path "
+                 "checked on what the processes wrote",
+    "level_text": "The command-line contract is about files, streams, exit status and the "
+                  "hand-off between separate processes (reconcile all / any / draw) that a real "
+                  "run would execute under different hash seeds; the simulator owns all of those. "
+                  "Seeded exploration with shrinking replay files.",
+    "design_ref": "DESIGN.md section 6 (C12), section 5 (E4), section 3.2 (S3, S4)",
+    "level_note": _LEVEL_NOTE,
+}
 
 NOT_APPLICABLE = {
     "C06": "pure function of a frozen value (node_event/_cost_rec/labeling cost): no schedule, order, "
@@ -177,6 +195,8 @@ PENDING = {
 }
 
 ENGINES = [
+    {"name": "E4-cli-pipeline", "path": "sim/e4_cli.py", "serves_properties": ["C12"],
+     "kind_free_text": "CLI processes in-process over SimFS / stdio / TeX peer with I/O faults"},
     {"name": "E5-render", "path": "sim/e5_render.py", "serves_properties": ["C13", "C14", "C15"],
      "kind_free_text": "layout/render histories against a simulated TeX engine peer (sim/peer.py)"},
     {"name": "E1-solver-history", "path": "sim/e1_solver.py",
